@@ -231,6 +231,13 @@ def image(truth, level, t0_ms=45296789, dt_ms=1, style=None, seed=0):
         out.append(bytes(r) + raw[i].tobytes())
         extents.append((pos, pos + prefix, pos + reclen))
         pos += reclen
+    trailing = (style or {}).get("trailing")
+    if trailing == "short":
+        out.append(b"\0" * max(reclen // 3, 1))
+    elif trailing == "records":
+        out.append(b"\0" * (reclen * 2 + 5))
+    elif trailing == "block":
+        out.append(b"\0" * ((-pos) % 32768))
     return b"".join(out), extents
 
 
@@ -475,6 +482,8 @@ def gen_plan(rng, max_lines=40, max_pixels=32, max_images=8, level=None, big=Fal
         "line_numbers": rng.choice(["normal"] * 6 + ["descending", "restart", "offset", "random"]),
         "dates": rng.choice(["normal"] * 5 + ["filler-first", "filler-some"]),
         "max_range": rng.random() < 0.7,
+        # bytes after the last declared record (media padding); never part of the image
+        "trailing": rng.choice([None] * 7 + ["short", "records", "block"]),
         "lines_per_burst": rng.choice([None, None, 2, 3, 5]) if scansar else None,
         "burst_overlap": rng.choice([0, 0, 1]),
     }
